@@ -145,3 +145,40 @@ def parse_fdf(data):
             raise FDFSyntaxError(f'entry with keys {sorted(entry)}')
         pairs.append((entry['T'], entry['V']))
     return pairs
+
+
+def fill_via_cli(solution_cp_with_habutax, fail=None):
+    """The real `habutax fill-pdfs <file> <out>` on a solution file (written
+    with ConfigParser.write, [habutax] section included).  Returns FillResult
+    with .exc, .calls; .values are NOT available (the filler is inside the CLI)."""
+    from hv import cli
+    tmp = tempfile.mkdtemp(prefix='hv_pdfcli_')
+    r = FillResult()
+    saved_path = os.environ.get('PATH', '')
+    os.environ['PATH'] = FAKE_DIR + os.pathsep + saved_path
+    os.environ['HV_PDFTK_LOG'] = os.path.join(tmp, 'log')
+    if fail:
+        os.environ['HV_PDFTK_FAIL'] = fail
+    else:
+        os.environ.pop('HV_PDFTK_FAIL', None)
+    try:
+        path = os.path.join(tmp, 'solution.ini')
+        with open(path, 'w') as f:
+            solution_cp_with_habutax.write(f)
+        c = cli.run_cli(['fill-pdfs', path, os.path.join(tmp, 'out.pdf')])
+        r.exc = c.exc
+        r.calls = []
+        logdir = os.path.join(tmp, 'log')
+        if os.path.isdir(logdir):
+            for fn in sorted(os.listdir(logdir)):
+                if fn.endswith('.json'):
+                    rec = json.load(open(os.path.join(logdir, fn)))
+                    if rec.get('fdf'):
+                        rec['fdf_bytes'] = open(rec['fdf'], 'rb').read()
+                    r.calls.append(rec)
+    finally:
+        os.environ['PATH'] = saved_path
+        os.environ.pop('HV_PDFTK_LOG', None)
+        os.environ.pop('HV_PDFTK_FAIL', None)
+        shutil.rmtree(tmp, ignore_errors=True)
+    return r
